@@ -230,6 +230,7 @@ def run(ctx):
                 res["tlc"].distinct, res["tlc"].generated, res["tlc"].violated or "holds"))
     # protocol model (design level) + spec->code replay
     mc = model_check(ctx, progs)
+    killval = binary_kill_validation(ctx) if pid == "C10" else None
     # binding self-test: flip one recorded skipped flag / add a phantom skip -> TLC must reject
     st = selftest(ctx, results, progs, invs)
     for res, prog in zip(results, progs):
@@ -278,6 +279,7 @@ def run(ctx):
                       "tlc_product_generated": r["tlc"].generated, "depth": r["tlc"].depth} for r in results],
         "judge": {"module": "SpokRunTrace", "invariants": invs},
         "protocol_model": mc,
+        "binary_kill_validation": killval,
         "selftest_corrupted_graph_rejected": st,
         "exhaustive": True,
     }, assumptions=["ideal digest (injective in the set of (path, content) pairs): discharged for the real digest by C04",
@@ -339,3 +341,100 @@ def replay(ctx, path):
         ctx.violations.append({"replay": path})
     else:
         log("history no longer violates %s" % ",".join(invs))
+
+
+# ------------------------------------------------------------------ C10 at the process level: a real kill -9 of the built binary
+def binary_kill_validation(ctx):
+    """Histories in which the spok PROCESS is killed with SIGKILL from inside a task command (the command runs `kill -9 $$`), executed
+    with the built binary as user nobody; the recorded behaviour is judged by the same SpokRunTrace invariants.  This keeps the
+    in-process kill model (unwinding at a hook point / inside a command) honest."""
+    import fam_cli
+    prog = mkprog("K1", [T("A", lit=["a.txt"]), T("B", lit=["b.txt"], deps=["A"])], ["a.txt", "b.txt"])
+    LOG = "@LOG@"
+
+    def spokfile():
+        s = ""
+        for t, args in (("A", '"a.txt"'), ("B", '"b.txt", A')):
+            s += 'task %s(%s) {\n    echo %s.1 >> %s\n    if [ "$(cat ksw)" = "%s" ]; then kill -9 $$; fi; echo %s.2 >> %s\n}\n\n' % (t, args, t, LOG, t, t, LOG)
+        return s
+
+    def content(c):
+        return "content-%d\n" % c
+    # a history = list of ("edit", file, c) | ("run", req, force, killtarget or None) | ("rmcache",)
+    hists = []
+    for tgt in ("A", "B"):
+        for req in (["B"], ["A", "B"], ["A"] if tgt == "A" else ["B"]):
+            hists.append([("run", ["A", "B"], False, None), ("edit", "a.txt", 1), ("run", req, False, tgt), ("edit", "a.txt", 0), ("run", ["A", "B"], False, None)])
+            hists.append([("run", ["A", "B"], False, None), ("edit", "a.txt", 1), ("edit", "b.txt", 1), ("run", req, False, tgt), ("edit", "a.txt", 0), ("run", ["A", "B"], False, None),
+                          ("edit", "b.txt", 0), ("run", ["B"], False, None)])
+            hists.append([("run", req, False, tgt), ("run", ["A", "B"], False, None), ("run", ["A", "B"], False, None)])
+            hists.append([("run", ["A", "B"], False, None), ("edit", "b.txt", 1), ("run", req, True, tgt), ("edit", "b.txt", 0), ("run", ["A", "B"], False, None)])
+    scen = []
+    for k, h in enumerate(hists):
+        files = [{"p": "proj/", "dir": True}, {"p": "proj/spokfile", "c": spokfile()}, {"p": "proj/a.txt", "c": content(0)}, {"p": "proj/b.txt", "c": content(0)},
+                 {"p": "proj/ksw", "c": "none"}]
+        steps, pending = [], []
+        for a in h:
+            if a[0] == "edit":
+                pending.append({"p": "proj/" + a[1], "c": content(a[2])})
+            elif a[0] == "run":
+                w = pending + [{"p": "proj/ksw", "c": a[3] or "none"}]
+                pending = []
+                steps.append({"cwd": "proj", "argv": a[1] + (["--force"] if a[2] else []) + ["--json"], "env": {}, "write": w})
+        scen.append({"id": k + 1, "files": files, "steps": steps})
+    raw = fam_cli.drive(ctx, scen, "kill")
+    # build one forest graph: node 0 = root with a reset edge per history
+    nodes = [{"id": 0, "fs": {"a.txt": 0, "b.txt": 0}, "cache": "none", "out": []}]
+    nkilled = 0
+    for h, r in zip(hists, raw):
+        fs = {"a.txt": 0, "b.txt": 0}
+        base = len(nodes)
+        nodes[0]["out"].append(blank_edge("reset", base))
+        si = 0
+        for a in h:
+            n = {"id": len(nodes), "fs": dict(fs), "cache": "ok", "out": []}
+            if a[0] == "edit":
+                fs[a[1]] = a[2]
+                e = blank_edge("edit", len(nodes) + 1)
+                e.update(f=a[1], c=a[2])
+            else:
+                st = r["steps"][si]
+                si += 1
+                e = blank_edge("invoke", len(nodes) + 1)
+                killed = st["exit"] == -1 and "killed" in (st.get("signal") or "")
+                nkilled += 1 if killed else 0
+                ran = []
+                for t in ("A", "B"):
+                    ms = [m for m in st["effects"] if m.startswith(t + ".")]
+                    if ms:
+                        ran.append((min(st["effects"].index(m) for m in ms), {"t": t, "n": len(ms), "ok": len(ms) == 2}))
+                reports = []
+                if not killed and st["exit"] == 0:
+                    try:
+                        reports = [{"t": d["task"], "skipped": d["skipped"], "nres": len(d.get("results") or [])} for d in json.loads(st["stdout"])]
+                    except Exception:
+                        reports = []
+                outcome = "killed" if killed else ("normal" if st["exit"] == 0 else "error")
+                e.update(req=a[1], force=a[2], failing=[], reports=reports, ran=[x[1] for x in sorted(ran, key=lambda x: x[0])], outcome=outcome,
+                         errcls=("cache" if "cache" in (st["stderr"] or "").lower() else ("none" if outcome != "error" else "other")), killed=killed,
+                         at="kill -9 $$ inside %s's second command" % a[3] if a[3] else "")
+            n["out"].append(e)
+            nodes.append(n)
+        nodes.append({"id": len(nodes), "fs": dict(fs), "cache": "ok", "out": []})
+    if nkilled < len(hists) // 2:      # (a kill step whose target task is skipped as up to date is never reached: fine)
+        raise Machinery("binary kill validation: only %d of %d kill steps ended with SIGKILL" % (nkilled, len(hists)))
+    d = ctx.sub("killval")
+    json.dump(prog, open(os.path.join(d, "program.json"), "w"))
+    vlib.write_ndjson(os.path.join(d, "graph.ndjson"), nodes)
+    r = judge(ctx, d, ["Inv_C10", "Inv_SkipRan"], workers=2, timeout=600)
+    if r.violated:
+        edges = [e for e in actions_from_trace(nodes, r.trace) if e["act"] != "reset"]
+        vlib.report(ctx, "%s:binary-kill:%s" % (r.violated, human(edges)[:200]), "%s violated at the process level (real kill -9 of the binary): %s" % (r.violated, human(edges)),
+                    {"property": "C10", "family": "run-binary", "invariant": r.violated, "history": human(edges), "scenario": "binary kill validation"})
+    log("binary kill validation: %d histories with a real SIGKILL of the spok process judged by SpokRunTrace: %s" % (len(hists), r.violated or "hold"))
+    return {"histories": len(hists), "real_sigkills": nkilled, "tlc_states": r.distinct, "result": r.violated or "holds"}
+
+
+def blank_edge(act, dst):
+    return {"act": act, "f": "", "c": 0, "k": 0, "req": [], "force": False, "failing": [], "reports": [], "ran": [], "outcome": "", "errcls": "none", "err": "",
+            "killed": False, "at": "", "crash": {"kind": "", "k": 0}, "pred": "", "dst": dst}
